@@ -97,6 +97,21 @@ func checkPriority(prio uint16) (uint16, error) {
 // SerializationBuffer, implementing gopacket.SerializableLayer.
 // See the docs for gopacket.SerializableLayer for more info.
 func (s *STP) SerializeTo(b gopacket.SerializeBuffer, opts gopacket.SerializeOptions) error {
+	prioRoot, err := checkPriority(s.RouteID.Priority)
+	if err != nil {
+		return err
+	}
+	prioBridge, err := checkPriority(s.BridgeID.Priority)
+	if err != nil {
+		return err
+	}
+	if s.RouteID.SysID >= 4096 || s.BridgeID.SysID >= 4096 {
+		return errors.New("Invalid VlanID value ..!")
+	}
+	if len(s.RouteID.HwAddr) != 6 || len(s.BridgeID.HwAddr) != 6 {
+		return fmt.Errorf("invalid STP hardware address length, root %d bridge %d, must be 6", len(s.RouteID.HwAddr), len(s.BridgeID.HwAddr))
+	}
+
 	var flags uint8 = 0x00
 	bytes, err := b.PrependBytes(35)
 	if err != nil {
@@ -113,25 +128,11 @@ func (s *STP) SerializeTo(b gopacket.SerializeBuffer, opts gopacket.SerializeOpt
 	}
 	bytes[4] = flags
 
-	prioRoot, err := checkPriority(s.RouteID.Priority)
-	if err != nil {
-		panic(err)
-	}
-	if s.RouteID.SysID >= 4096 {
-		panic("Invalid VlanID value ..!")
-	}
 	binary.BigEndian.PutUint16(bytes[5:7], prioRoot|s.RouteID.SysID)
 	copy(bytes[7:13], s.RouteID.HwAddr)
 
 	binary.BigEndian.PutUint32(bytes[13:17], s.Cost)
 
-	prioBridge, err := checkPriority(s.BridgeID.Priority)
-	if err != nil {
-		panic(err)
-	}
-	if s.BridgeID.SysID >= 4096 {
-		panic("Invalid VlanID value ..!")
-	}
 	binary.BigEndian.PutUint16(bytes[17:19], prioBridge|s.BridgeID.SysID)
 	copy(bytes[19:25], s.BridgeID.HwAddr)
 
